@@ -12,7 +12,7 @@ open Std
 
 namespace DD
 
-theorem addVar_sched (m : Mgr) (name : String) (level : Option Int) :
+theorem addVar_keeps_sched (m : Mgr) (name : String) (level : Option Int) :
     (addVar name level m).2.sched = m.sched := by
   cases hex : m.tbl.vars[name]? with
   | some vl =>
@@ -52,7 +52,7 @@ theorem copyVarStep_sk (src : Tbl) (v : String) : SK (copyVarStep src v) := by
   | none => rfl
   | some l =>
     simp only
-    have := addVar_sched m v (some (l : Int))
+    have := addVar_keeps_sched m v (some (l : Int))
     generalize addVar v (some (l : Int)) m = res at this ⊢
     obtain ⟨r, m1⟩ := res
     cases r <;> exact this
@@ -68,7 +68,7 @@ theorem copyVarsLoop_sk (src : Tbl) : ∀ (names : List String),
     | done b => exact SK.pure' b
     | yield b => exact copyVarsLoop_sk src rest
 
-theorem copyVarsCore_sched (src : Tbl) (names : List String) (hperm : names.Perm src.vars.keys)
+theorem copyVarsCore_keeps_sched (src : Tbl) (names : List String) (hperm : names.Perm src.vars.keys)
     (m : Mgr) : (copyVarsCore src names m).2.sched = m.sched := by
   unfold copyVarsCore
   have hguard : (!(names.length == src.vars.keys.length &&
@@ -90,7 +90,7 @@ theorem copyVars_keepsAt_noNodes {off : Bool} (src : Tbl) (hO : OrderOK src) (na
   intro ext hm r m' he
   obtain ⟨m2, hrun, hv, hl, c1, c2, c3, c4, c5, c6, c7, c8⟩ := copyVarsCore_spec src hO names hperm m hc
   have hs : m2.sched = m.sched := by
-    have := copyVarsCore_sched src names hperm m
+    have := copyVarsCore_keeps_sched src names hperm m
     rw [hrun] at this; exact this
   rw [hrun] at he
   cases he
